@@ -122,7 +122,7 @@ def gen_step(rng, cell, clocks, vname, at_us, thr, fault_free):
             'cert_as': rng.choice(['bytes', 'object']),
             't': t, 'thr': thr, 'chain': chain, 'signer': '%s%d' % (pre, ln),
             'allowed': rng.choice(['00', '00', '01', '03', '80', 'c1']), 'flag': '00',
-            'sigfields': {'sigfield%d' % k: rng.bytes(rng.choice([1, 16, 64])).hex()
+            'sigfields': {'sigfield%d' % k: rng.bytes(rng.choice([1, 16, 64, 64, 255, 256, 300])).hex()
                           for k in rng.sample(range(1, 9), rng.rng(1, 3))},
             'attack': None, 'faults': []}
     if rng.chance(1, 3):
